@@ -765,3 +765,208 @@ Fixpoint p_check (s : pstate) (steps : list (pop * pobs)) : bool :=
   end.
 Definition ok_pool (c : Z * Z * Z * list (pop * pobs)) : bool :=
   let '(mx, mn, polls, steps) := c in p_check (p_init mx mn polls) steps.
+
+(* ================================================================== *)
+(** * Bulkhead  (components/resilience/bulkhead.py) — one step per handled event *)
+Record bstate := {
+  b_max : Z; b_maxq : Z; b_maxwait : option Z;        (* max_concurrent, max_wait_queue, max_wait_time (ns) *)
+  b_active : Z;
+  b_queue : list (Z * Z * Z);      (* _wait_queue: request id, enqueue time, item *)
+  b_next : Z;                      (* _next_request_id *)
+  b_inflight : list (Z * Z);       (* _in_flight: request id, item *)
+  b_total : Z; b_accepted : Z; b_rejected : Z; b_timedout : Z; b_queued : Z; b_peakc : Z; b_peakq : Z;
+}.
+Definition b_init (mx mq : Z) (mw : option Z) : bstate :=
+  {| b_max := mx; b_maxq := mq; b_maxwait := mw; b_active := 0; b_queue := []; b_next := 0; b_inflight := [];
+     b_total := 0; b_accepted := 0; b_rejected := 0; b_timedout := 0; b_queued := 0; b_peakc := 0; b_peakq := 0 |}.
+
+Inductive bop :=
+| BRequest (item now : Z)
+| BResponse (req now : Z)
+| BTimeout (req now : Z).
+
+Inductive bres :=
+| BForwarded (req item : Z)        (* event sent to the target *)
+| BQueued (req : Z)
+| BRejected
+| BNothing.                        (* response of an unknown request / timeout of a request no longer queued / nothing to forward *)
+
+(** [_forward_request] *)
+Definition b_forward (s : bstate) (item : Z) : bstate * bres :=
+  let req := b_next s + 1 in
+  ({| b_max := b_max s; b_maxq := b_maxq s; b_maxwait := b_maxwait s; b_active := b_active s + 1;
+      b_queue := b_queue s; b_next := req; b_inflight := b_inflight s ++ [(req, item)];
+      b_total := b_total s; b_accepted := b_accepted s + 1; b_rejected := b_rejected s;
+      b_timedout := b_timedout s; b_queued := b_queued s;
+      b_peakc := Z.max (b_peakc s) (b_active s + 1); b_peakq := b_peakq s |}, BForwarded req item).
+
+Definition b_expired (s : bstate) (now enq : Z) : bool :=
+  match b_maxwait s with None => false | Some mw => now - enq >? mw end.
+
+(** [_try_process_queued], by recursion on the queue (expired heads are skipped). *)
+Fixpoint b_drain (s : bstate) (now : Z) (q : list (Z * Z * Z)) (skipped : Z) : bstate * bres :=
+  match q with
+  | [] => ({| b_max := b_max s; b_maxq := b_maxq s; b_maxwait := b_maxwait s; b_active := b_active s;
+              b_queue := []; b_next := b_next s; b_inflight := b_inflight s; b_total := b_total s;
+              b_accepted := b_accepted s; b_rejected := b_rejected s; b_timedout := b_timedout s + skipped;
+              b_queued := b_queued s; b_peakc := b_peakc s; b_peakq := b_peakq s |}, BNothing)
+  | (req, enq, item) :: rest =>
+      if b_active s >=? b_max s then
+        ({| b_max := b_max s; b_maxq := b_maxq s; b_maxwait := b_maxwait s; b_active := b_active s;
+            b_queue := q; b_next := b_next s; b_inflight := b_inflight s; b_total := b_total s;
+            b_accepted := b_accepted s; b_rejected := b_rejected s; b_timedout := b_timedout s + skipped;
+            b_queued := b_queued s; b_peakc := b_peakc s; b_peakq := b_peakq s |}, BNothing)
+      else if b_expired s now enq then b_drain s now rest (skipped + 1)
+      else
+        b_forward {| b_max := b_max s; b_maxq := b_maxq s; b_maxwait := b_maxwait s; b_active := b_active s;
+                     b_queue := rest; b_next := b_next s; b_inflight := b_inflight s; b_total := b_total s;
+                     b_accepted := b_accepted s; b_rejected := b_rejected s; b_timedout := b_timedout s + skipped;
+                     b_queued := b_queued s; b_peakc := b_peakc s; b_peakq := b_peakq s |} item
+  end.
+
+Fixpoint q_remove (req : Z) (q : list (Z * Z * Z)) : list (Z * Z * Z) :=
+  match q with [] => [] | (r, e, i) :: rest => if r =? req then rest else (r, e, i) :: q_remove req rest end.
+Definition q_mem (req : Z) (q : list (Z * Z * Z)) : bool := existsb (fun x => fst (fst x) =? req) q.
+
+Definition b_step (s : bstate) (o : bop) : bstate * bres :=
+  match o with
+  | BRequest item now =>
+      let s1 := {| b_max := b_max s; b_maxq := b_maxq s; b_maxwait := b_maxwait s; b_active := b_active s;
+                   b_queue := b_queue s; b_next := b_next s; b_inflight := b_inflight s; b_total := b_total s + 1;
+                   b_accepted := b_accepted s; b_rejected := b_rejected s; b_timedout := b_timedout s;
+                   b_queued := b_queued s; b_peakc := b_peakc s; b_peakq := b_peakq s |} in
+      if b_active s <? b_max s then b_forward s1 item
+      else if Z.of_nat (length (b_queue s)) <? b_maxq s then
+        let req := b_next s + 1 in
+        let q := b_queue s ++ [(req, now, item)] in
+        ({| b_max := b_max s; b_maxq := b_maxq s; b_maxwait := b_maxwait s; b_active := b_active s;
+            b_queue := q; b_next := req; b_inflight := b_inflight s; b_total := b_total s + 1;
+            b_accepted := b_accepted s; b_rejected := b_rejected s; b_timedout := b_timedout s;
+            b_queued := b_queued s + 1; b_peakc := b_peakc s;
+            b_peakq := Z.max (b_peakq s) (Z.of_nat (length q)) |}, BQueued req)
+      else
+        ({| b_max := b_max s; b_maxq := b_maxq s; b_maxwait := b_maxwait s; b_active := b_active s;
+            b_queue := b_queue s; b_next := b_next s; b_inflight := b_inflight s; b_total := b_total s + 1;
+            b_accepted := b_accepted s; b_rejected := b_rejected s + 1; b_timedout := b_timedout s;
+            b_queued := b_queued s; b_peakc := b_peakc s; b_peakq := b_peakq s |}, BRejected)
+  | BResponse req now =>
+      match assoc_find req (b_inflight s) with
+      | None => (s, BNothing)
+      | Some _ =>
+          let s1 := {| b_max := b_max s; b_maxq := b_maxq s; b_maxwait := b_maxwait s;
+                       b_active := Z.max 0 (b_active s - 1); b_queue := b_queue s; b_next := b_next s;
+                       b_inflight := assoc_remove req (b_inflight s); b_total := b_total s;
+                       b_accepted := b_accepted s; b_rejected := b_rejected s; b_timedout := b_timedout s;
+                       b_queued := b_queued s; b_peakc := b_peakc s; b_peakq := b_peakq s |} in
+          b_drain s1 now (b_queue s1) 0
+      end
+  | BTimeout req now =>
+      if q_mem req (b_queue s) then
+        ({| b_max := b_max s; b_maxq := b_maxq s; b_maxwait := b_maxwait s; b_active := b_active s;
+            b_queue := q_remove req (b_queue s); b_next := b_next s; b_inflight := b_inflight s;
+            b_total := b_total s; b_accepted := b_accepted s; b_rejected := b_rejected s;
+            b_timedout := b_timedout s + 1; b_queued := b_queued s; b_peakc := b_peakc s; b_peakq := b_peakq s |},
+         BNothing)
+      else (s, BNothing)
+  end.
+
+Fixpoint b_run (s : bstate) (ops : list bop) : bstate :=
+  match ops with [] => s | o :: r => b_run (fst (b_step s o)) r end.
+
+Definition bres_code (r : bres) : Z * Z * Z :=
+  match r with BForwarded q i => (1, q, i) | BQueued q => (2, q, 0) | BRejected => (3, 0, 0) | BNothing => (0, 0, 0) end.
+(** observation: (code, req, item, [active; total; accepted; rejected; timed_out; queued; peak_c; peak_q], queue req ids, in-flight req ids) *)
+Definition bobs := (Z * Z * Z * list Z * list Z * list Z)%type.
+Definition b_view (s : bstate) (r : bres) : bobs :=
+  let '(c, q, i) := bres_code r in
+  (c, q, i, [b_active s; b_total s; b_accepted s; b_rejected s; b_timedout s; b_queued s; b_peakc s; b_peakq s],
+   map (fun x => fst (fst x)) (b_queue s), map fst (b_inflight s)).
+Definition bobs_eqb (a b : bobs) : bool :=
+  let '(c1, q1, i1, k1, w1, f1) := a in let '(c2, q2, i2, k2, w2, f2) := b in
+  (c1 =? c2) && (q1 =? q2) && (i1 =? i2) && zlist_eqb k1 k2 && zlist_eqb w1 w2 && zlist_eqb f1 f2.
+Fixpoint b_check (s : bstate) (steps : list (bop * bobs)) : bool :=
+  match steps with
+  | [] => true
+  | (o, ob) :: r => let '(s', res) := b_step s o in bobs_eqb (b_view s' res) ob && b_check s' r
+  end.
+Definition ok_bulkhead (c : Z * Z * option Z * list (bop * bobs)) : bool :=
+  let '(mx, mq, mw, steps) := c in b_check (b_init mx mq mw) steps.
+
+(* ================================================================== *)
+(** * Barrier  (components/sync/barrier.py, wait loop parked on a future) *)
+Record brstate := {
+  br_parties : Z;
+  br_waiters : list (Z * Z);       (* client, enqueue time *)
+  br_released : list (Z * Z);      (* callbacks fired, generator not resumed yet *)
+  br_gen : Z; br_broken : bool;
+  br_calls : Z; br_breaks : Z; br_resets : Z; br_wait : Z;
+}.
+Definition br_init (parties : Z) : brstate :=
+  {| br_parties := parties; br_waiters := []; br_released := []; br_gen := 0; br_broken := false;
+     br_calls := 0; br_breaks := 0; br_resets := 0; br_wait := 0 |}.
+
+Inductive brop :=
+| BrWaitStart (c now : Z)          (* first step of wait() *)
+| BrWaitResume (c now : Z)         (* resume of a parked wait() *)
+| BrReset | BrAbort.
+
+Inductive brres :=
+| BrTripped (woken : list Z)       (* last party: returned 0 without yielding, released these waiters *)
+| BrParked (index : Z)             (* yielded the future; arrival index it will return *)
+| BrReturned                       (* parked wait() finished *)
+| BrErr                            (* RuntimeError: barrier broken *)
+| BrWoke (woken : list Z)          (* reset/abort released these waiters *)
+| BrNoop.
+
+Definition br_step (s : brstate) (o : brop) : brstate * brres :=
+  match o with
+  | BrWaitStart c now =>
+      if br_broken s then (s, BrErr)
+      else if Z.of_nat (length (br_waiters s)) + 1 >=? br_parties s then
+        ({| br_parties := br_parties s; br_waiters := []; br_released := br_released s ++ br_waiters s;
+            br_gen := br_gen s + 1; br_broken := false; br_calls := br_calls s + 1;
+            br_breaks := br_breaks s + 1; br_resets := br_resets s;
+            br_wait := br_wait s + zsum (map (fun w => now - snd w) (br_waiters s)) |},
+         BrTripped (map fst (br_waiters s)))
+      else
+        let ws := br_waiters s ++ [(c, now)] in
+        ({| br_parties := br_parties s; br_waiters := ws; br_released := br_released s;
+            br_gen := br_gen s; br_broken := false; br_calls := br_calls s + 1;
+            br_breaks := br_breaks s; br_resets := br_resets s; br_wait := br_wait s |},
+         BrParked (br_parties s - Z.of_nat (length ws)))
+  | BrWaitResume c now =>
+      match assoc_find c (br_released s) with
+      | None => (s, BrNoop)
+      | Some enq =>
+          ({| br_parties := br_parties s; br_waiters := br_waiters s;
+              br_released := assoc_remove c (br_released s); br_gen := br_gen s; br_broken := br_broken s;
+              br_calls := br_calls s; br_breaks := br_breaks s; br_resets := br_resets s;
+              br_wait := br_wait s + (now - enq) |}, BrReturned)
+      end
+  | BrReset =>
+      ({| br_parties := br_parties s; br_waiters := []; br_released := br_released s ++ br_waiters s;
+          br_gen := br_gen s + 1; br_broken := false; br_calls := br_calls s; br_breaks := br_breaks s;
+          br_resets := br_resets s + 1; br_wait := br_wait s |}, BrWoke (map fst (br_waiters s)))
+  | BrAbort =>
+      ({| br_parties := br_parties s; br_waiters := []; br_released := br_released s ++ br_waiters s;
+          br_gen := br_gen s; br_broken := true; br_calls := br_calls s; br_breaks := br_breaks s;
+          br_resets := br_resets s; br_wait := br_wait s |}, BrWoke (map fst (br_waiters s)))
+  end.
+
+Fixpoint br_run (s : brstate) (ops : list brop) : brstate :=
+  match ops with [] => s | o :: r => br_run (fst (br_step s o)) r end.
+
+Definition brres_code (r : brres) : Z * list Z :=
+  match r with
+  | BrTripped w => (0, w) | BrParked i => (1, [i]) | BrReturned => (2, []) | BrErr => (3, [])
+  | BrWoke w => (4, w) | BrNoop => (5, [])
+  end.
+Definition br_view (s : brstate) (r : brres) : sobs :=
+  (fst (brres_code r), snd (brres_code r),
+   [Z.of_nat (length (br_waiters s)); br_gen s; b2z (br_broken s); br_calls s; br_breaks s; br_resets s; br_wait s]).
+Fixpoint br_check (s : brstate) (steps : list (brop * sobs)) : bool :=
+  match steps with
+  | [] => true
+  | (o, ob) :: r => let '(s', res) := br_step s o in sobs_eqb (br_view s' res) ob && br_check s' r
+  end.
+Definition ok_barrier (c : Z * list (brop * sobs)) : bool := br_check (br_init (fst c)) (snd c).
